@@ -200,6 +200,8 @@ func vh_direct_writer() {
 		wantHeld = 1
 	}
 	vAssert(len(sem) == wantHeld, "C07/direct/semaphore-released")
+	// C06: a writer that keeps the semaphore blocks every later request of the connection forever
+	vAssert(len(sem) == wantHeld, "C06/writer/semaphore-released-on-every-exit")
 	vObserve("n", n)
 }
 
